@@ -84,16 +84,21 @@ ObsSteps(i) == IF i <= 1 THEN 0 ELSE ObsSteps(O[i].p) + (IF ObsCtx(i) THEN 0 ELS
 ObsDepth ==
   /\ (K <= 0 => Len(O) = 1)
   /\ \A i \in 2..Len(O) : Engine(i) => ObsSteps(ObsBase(O[i].p, O[i].src[1])) < K
-\* the tree for K-1 is the machine's tree with the pass at level K-1 removed
-RECURSIVE Lin(_, _, _)
-Lin(kids, parentPos, firstPos) ==        \* nested forest -> pre-order sequence of [p,s,e,ty,obf,val]
-  IF kids = <<>> THEN <<>>
-  ELSE LET k == kids[1]
-           sub == Lin(k.kids, firstPos, firstPos + 1)
-       IN <<[p |-> parentPos, s |-> k.s, e |-> k.e, ty |-> k.ty, obf |-> k.obf, val |-> k.val]>>
-          \o sub \o Lin(Tail(kids), parentPos, firstPos + 1 + Len(sub))
-RootRec == [p |-> 0, s |-> 0, e |-> TextLen(1), ty |-> "", obf |-> "", val |-> 1]
-ObsPrefix == T.hasLo => Core(T.lo) = <<RootRec>> \o Lin(Truncate(LvlScan(1, "", K, 0), K - 1), 1, 2)
+\* the tree for K-1 is the observed tree for K with the search pass at level K-1 removed.  Levels are
+\* computed on the observed tree itself (not through the reference, which only speaks for worlds inside
+\* the engine's precondition): an engine-attached node has the level of the pass that found it, a
+\* decoder-supplied node the level of the hit it came with.
+RECURSIVE ObsLvl(_)
+ObsLvl(i) == IF i <= 1 THEN 0
+             ELSE IF Engine(i) THEN ObsSteps(ObsBase(O[i].p, O[i].src[1]))
+             ELSE ObsLvl(O[i].p)
+ObsPrefix == T.hasLo =>
+  LET kept == {i \in 1..Len(O) : i = 1 \/ ObsLvl(i) < K - 1}
+      idx  == SetToSortSeq(kept, LAMBDA a, b : a < b)
+      rank(i) == Cardinality({j \in kept : j <= i})
+  IN Core(T.lo) = [k \in 1..Len(idx) |->
+                     LET n == O[idx[k]] IN [p |-> IF n.p = 0 THEN 0 ELSE rank(n.p), s |-> n.s, e |-> n.e,
+                                            ty |-> n.ty, obf |-> n.obf, val |-> n.val]]
 
 \* C08: the sub-tree of a decoded node vs an independent scan of (type, value, remaining depth)
 RECURSIVE IsUnder(_, _)
